@@ -537,6 +537,8 @@ def check_run(ctx, case, real, batch, pending):
         return
     orc = needs_oracle(case, mode)
     for i in orc:
+        if case["trackers"][i]["sched"]["kind"] != "geometric":
+            continue  # (wall-clock schedule: any increasing answers)
         # answers replayed as an oracle must themselves be a geometric schedule (C09's monitor)
         if not geometric_answers_ok(case["trackers"][i]["sched"], real["sched_log"][i]):
             ctx.disagree("correspondence", case, "geometric schedule", real["sched_log"][i][:20],
